@@ -28,7 +28,8 @@ EXTENDS Integers, Sequences, FiniteSets, TLC
 
 CONSTANTS Configs,      \* set of scenario records (see MC_QL.tla); trace validation binds cfg from the trace
           Fixed,        \* TRUE: the repaired behaviour (registered); FALSE: the pinned code's behaviour
-          AllowForeignClose  \* enable Close() from a foreign goroutine as an environment action
+          AllowForeignClose, \* enable Close() from a foreign goroutine as an environment action
+          AllowCancel        \* enable cancellation / deadline expiry of the caller's context
 
 VARIABLES
   cfg,        \* scenario: [scn, needInfo, ext, script, plan, present, rfail, rcancel, initRows, wbreak]
@@ -191,7 +192,7 @@ S_Input ==
 S_EncBlock ==
   /\ spc = "encblock"
   /\ IF CtxDead THEN spc' = "ret" /\ Ret("S", "ctx") /\ UNCHANGED <<pend, round>>
-     ELSE /\ pend' = Append(pend, Tok("block", ver)) /\ round' = round + 1
+     ELSE /\ pend' = Append(pend, Tok("block", IF rows = 0 THEN 0 ELSE ver)) /\ round' = round + 1  \* v = 0: an empty block
           /\ spc' = IF cfg.scn = "insert" \/ tail THEN "term" ELSE "flushr"
           /\ UNCHANGED <<rerr, lateFault>>
   /\ UNCHANGED <<once, c2s, caller, gctx, firstErr, closed, connClosed, info, ver, rows, tail, cbS, wbroken>> /\ SU
@@ -275,9 +276,12 @@ Handle(i) ==
     [] OTHER -> \* "bad" code, well-formed unexpected packet, undecodable body, cut, truncated packet
          RRet("err") /\ NoCb /\ UNCHANGED <<gotExc, seenRows, info>>
 
+(* Once the connection is closed locally a read fails - unless the packet   *)
+(* was already sitting in the reader's buffer, which the model does not     *)
+(* track: both outcomes are allowed then.                                   *)
 Consume ==
   \/ /\ s2c # <<>> /\ s2c' = Tail(s2c) /\ Handle(Head(s2c))
-  \/ /\ s2c = <<>> /\ connClosed /\ RRet("err") /\ NoCb /\ UNCHANGED <<s2c, gotExc, seenRows, info>>
+  \/ /\ connClosed /\ RRet("err") /\ NoCb /\ UNCHANGED <<s2c, gotExc, seenRows, info>>
 
 R_Begin ==
   /\ rpc = "loop"
@@ -330,7 +334,7 @@ EnvU == UNCHANGED <<cfg, spc, rpc, wpc, rerr, once, pend, c2s, firstErr, gotExc,
                     cbS, cbR, seenRows, cblog, call, phase, wbroken, lateFault>>
 
 CallerCancel(how) ==
-  /\ phase = "inDo" /\ caller = "live"
+  /\ AllowCancel /\ phase = "inDo" /\ caller = "live"
   /\ caller' = how /\ gctx' = "dead"
   /\ cancelAt' = IF rerr["R"] = "nil" THEN "late" ELSE "running"
   /\ cancelClean' = (firstErr = "none" /\ \A x \in Roles : rerr[x] \in {"run", "nil"})
@@ -423,9 +427,9 @@ CbsUpTo(n) == IF n = 0 THEN <<>>
                    (IF cfg.script[n].k \in BlockKinds /\ cfg.scn # "select" /\ cfg.needInfo THEN <<>>
                     ELSE [j \in 1..Len(CbsOf(cfg.script[n])) |-> [cb |-> CbsOf(cfg.script[n])[j], id |-> n]])
 Consumed == sidx - 1 - Len(s2c)
-IsPrefix(a, b) == Len(a) <= Len(b) /\ SubSeq(b, 1, Len(a)) = a
+IsPrefixSeq(a, b) == Len(a) <= Len(b) /\ SubSeq(b, 1, Len(a)) = a
 \* exactly once, in order: the log is always a prefix of the expected sequence, and complete on success
-Delivered == /\ IsPrefix(cblog, CbsUpTo(Consumed))
+Delivered == /\ IsPrefixSeq(cblog, CbsUpTo(Consumed))
              /\ (Returned /\ firstErr = "none" => cblog = CbsUpTo(Consumed))
 ExcReturned == Returned /\ gotExc /\ cancelAt = "none" /\ rerr["S"] \in {"nil", "ctx", "run"} => firstErr = "exc"
 
@@ -439,7 +443,9 @@ OneTerminator == phase = "returned" /\ firstErr = "none" /\ cfg.scn # "select" =
 TailSent == phase = "returned" /\ firstErr = "none" /\ cfg.scn = "stream" =>
               rows = 0 \/ (Len(BlocksOnWire) > 0 /\ BlocksOnWire[Len(BlocksOnWire)].v = ver)
 \* block versions on the wire are non-decreasing and each was current when encoded (round r holds the contents at round r)
-Faithful == \A i \in 1..(Len(BlocksOnWire) - 1) : BlocksOnWire[i].v <= BlocksOnWire[i + 1].v
+NonEmptyBlocks == SelectSeq(BlocksOnWire, LAMBDA t : t.v # 0)
+Faithful == /\ \A i \in 1..(Len(NonEmptyBlocks) - 1) : NonEmptyBlocks[i].v <= NonEmptyBlocks[i + 1].v
+            /\ \A i \in 1..Len(NonEmptyBlocks) : NonEmptyBlocks[i].v <= ver
 
 \* C10 ------------------------------------------------------------------
 CancelObliges == cancelAt = "running" /\ cancelClean /\ ~lateFault
